@@ -272,3 +272,40 @@ func VP_C12_literals() {
 		vpAssert("C12/literals/exact-value", false)
 	}
 }
+
+func init() {
+	vpHarnesses["VP_C12_pairs"] = VP_C12_pairs
+}
+
+// C12/pairs: CONCRETE POOL of formulas with several literals (separators,
+// exponents, fractions in different combinations): every literal keeps the
+// value written, whatever stands next to it.
+func VP_C12_pairs() {
+	pool := []struct {
+		f    string
+		want []string
+	}{
+		{"[1_0, 2_5]", []string{"10", "25"}}, {"[1_000, 2_0]", []string{"1000", "20"}}, {"[1_000 + 2_0]", []string{"1020"}}, {"[7, 1_000, 7]", []string{"7", "1000", "7"}},
+		{"[1e3, .5_0, 1_0.2_5e0_1]", []string{"1E+3", "0.50", "102.5"}}, {"[1_0e-1, 1_0e+1, 1_0e1]", []string{"1.0", "1.0E+2", "1.0E+2"}}, {"[0.1, 0.1_0, 1_1.1_1]", []string{"0.1", "0.10", "11.11"}},
+		{"[9_9, 9_9, 9_8]", []string{"99", "99", "98"}}, {"[12_345.678_9, 1_2]", []string{"12345.6789", "12"}}, {"[1_000e-3, 2_500.5E-2, 1e-1_0]", []string{"1.000", "25.005", "1E-10"}},
+	}
+	p := pool[vpChoice("f", len(pool))]
+	code, err := ParseSourceCode([]byte(p.f))
+	vpAssert("C12/pairs/parses", err == nil)
+	if err != nil {
+		return
+	}
+	v, rerr := NewRunner().Resolve(context.Background(), code.Expression)
+	arr, ok := v.([]interface{})
+	vpAssert("C12/pairs/evaluates", rerr == nil && ok && len(arr) == len(p.want))
+	if rerr != nil || !ok || len(arr) != len(p.want) {
+		return
+	}
+	for i, w := range p.want {
+		g, isNum := arr[i].(*decimal.Big)
+		wantBig, _ := new(decimal.Big).SetString(w)
+		vpAssert("C12/pairs/every-literal-exact", isNum && g != nil && wantBig != nil && g.Cmp(wantBig) == 0)
+	}
+	vpObserve("pairs", p.f)
+	vpReach("C12/pairs/done")
+}
